@@ -43,7 +43,7 @@ ASSUMPTIONS = [
     "TFP's base densities and bijectors are trusted as such, but every number is compared with an independent scipy/closed-form float64 reference, so a wrong use (Invert dropped, forward/inverse swapped, wrong arguments) shows",
     "TFP's default event-space bijectors are taken from its documentation (HalfCauchy: loc+exp, InverseGamma: 1/softplus, Gamma/HalfNormal/Exponential: softplus, LogNormal: exp, Beta: sigmoid, Uniform/TruncatedNormal: sigmoid scaled to [low, high], Normal: identity)",
     "float32 model against float64 reference: values within 2e-5 relative, log-densities within 2e-4 x (1 + |log p| + |log b'|) per element",
-    "chained transformations (x.transform(b1) followed by x_transformed.transform(b2), b2 in {Scale(2.0) instance, Shift(shift=-0.5) class}) are enumerated for the three Var.transform entry points with constant parameters, in built models and without a model (update() by hand); chains that start with the deprecated GraphBuilder.transform are NOT enumerated (they fail on the current tree: _transform_back wires the original to the new variable's value node - reported separately)",
+    "chained transformations: first step through every Var.transform entry point and every form of the deprecated GraphBuilder.transform, second step b2 in {Scale(2.0) instance, Shift(shift=-0.5) class} through Var.transform or through GraphBuilder.transform (all four combinations), constant parameters, in built models and without a model (update() by hand)",
     "lattice points only: nothing is said about values between them; one (thorough: two) parameter settings per family plus one re-assignment per parameter variable",
 ]
 
@@ -124,15 +124,17 @@ U_THOROUGH = (-3.0, -1.5, -0.25, 0.0, 0.1, 0.5, 1.5, 3.0)
 
 def chain_cases(opt, tier):
     """(entry, second, style, shape, per_obs, flag) for the chained transformations."""
-    entries = [e for e in ENTRIES[opt[0]] if e.startswith("Var.transform")]
-    seconds = ["inst:Scale(2.0)", "cls:Shift(shift=-0.5)"]
+    entries = [e for e in ENTRIES[opt[0]] if e != "auto_transform"]  # Var.transform and the deprecated GraphBuilder.transform
+    seconds = ["inst:Scale(2.0)", "cls:Shift(shift=-0.5)", "gb:inst:Scale(2.0)", "gb:cls:Shift(shift=-0.5)"]  # gb: = second step through GraphBuilder.transform
     out = []
     for e in entries:
         for sec in seconds:
+            dep = e.startswith("GraphBuilder") or sec.startswith("gb:")
             if tier == "quick":
-                out += [(e, sec, "add(x)", "scalar", True, True), (e, sec, "Model([x])", "vec3", False, False), (e, sec, "no-model", "vec3", True, True)]
+                out += [(e, sec, "add(x)", "scalar", True, True), (e, sec, "no-model", "vec3", True, True)]
+                out += [(e, sec, "add(x)", "vec3", False, False)] if dep else [(e, sec, "Model([x])", "vec3", False, False)]
             else:
-                for style in ("add(x)", "add(sink)", "Model([x])", "Model([sink])", "no-model"):
+                for style in (("add(x)", "add(sink)", "no-model") if dep else ("add(x)", "add(sink)", "Model([x])", "Model([sink])", "no-model")):
                     for shp, po, fl in (("scalar", True, True), ("scalar", True, False), ("vec3", True, True), ("vec3", False, False)):
                         out.append((e, sec, style, shp, po, fl))
     return out
@@ -154,8 +156,8 @@ def bounds(tier):
         "build_styles": {"auto_transform": list(STYLES), "other entry points": "add(x) always; add(sink) / Model([x]) / Model([sink]) on a sub-grid (quick) or all (thorough)"},
         "shape_perobs_flag": [list(c) for c in combos(tier)],
         "t_lattice": list(T_QUICK if tier == "quick" else T_THOROUGH),
-        "chained_transformations": {"second": ["inst:Scale(2.0)", "cls:Shift(shift=-0.5)"], "first": "every Var.transform entry of every (family, option)", "u_lattice": list(U_QUICK if tier == "quick" else U_THOROUGH),
-                                    "styles": ["add(x)", "Model([x])", "no-model"] if tier == "quick" else ["add(x)", "add(sink)", "Model([x])", "Model([sink])", "no-model"]},
+        "chained_transformations": {"second": ["inst:Scale(2.0)", "cls:Shift(shift=-0.5)"], "second_via": ["Var.transform", "GraphBuilder.transform"], "first": "every Var.transform and GraphBuilder.transform entry of every (family, option)", "u_lattice": list(U_QUICK if tier == "quick" else U_THOROUGH),
+                                    "styles": ["add(x)", "Model([x]) (Var.transform-only chains)", "no-model"] if tier == "quick" else ["add(x)", "add(sink)", "Model([x]) / Model([sink]) (Var.transform-only chains)", "no-model"]},
         "parameter_settings_per_family": 1 if tier == "quick" else 2,
     }
 
@@ -272,26 +274,29 @@ def build(case, spec, opt, params0):
         elif entry == "Var.transform(cls,*args)":  # positional, in the order of the bijector's signature
             tv = x.transform(bijector_class(tfb, liesel_bij, bname), *bargs.values())
         elif entry == "GraphBuilder.transform(cls,*args)":
-            gb.transform(x, bijector_class(tfb, liesel_bij, bname), *bargs.values())
+            tv = gb.transform(x, bijector_class(tfb, liesel_bij, bname), *bargs.values())
         elif entry == "Var.transform(None)":
             tv = x.transform(None)
         elif entry == "auto_transform":
             x.auto_transform = True
         elif entry == "GraphBuilder.transform(instance)":
-            gb.transform(x, make_bijector(tfb, liesel_bij, bname, bkw))
+            tv = gb.transform(x, make_bijector(tfb, liesel_bij, bname, bkw))
         elif entry == "GraphBuilder.transform(cls,**args)":
-            gb.transform(x, bijector_class(tfb, liesel_bij, bname), **bargs)
+            tv = gb.transform(x, bijector_class(tfb, liesel_bij, bname), **bargs)
         elif entry == "GraphBuilder.transform(None)":
-            gb.transform(x)
+            tv = gb.transform(x)
         else:
             raise ValueError(entry)
         if case.get("second"):
             # chained transformation: the new (strong, distributed) variable is transformed again
-            kind2, name2, kw2 = SECONDS[case["second"]]
+            via_gb = case["second"].startswith("gb:")  # second step through the deprecated builder method
+            kind2, name2, kw2 = SECONDS[case["second"].removeprefix("gb:")]
             if kind2 == "inst":
-                tv2 = tv.transform(make_bijector(tfb, liesel_bij, name2, kw2))
+                b2 = make_bijector(tfb, liesel_bij, name2, kw2)
+                tv2 = gb.transform(tv, b2) if via_gb else tv.transform(b2)
             else:
-                tv2 = tv.transform(bijector_class(tfb, liesel_bij, name2), **kw2)
+                c2 = bijector_class(tfb, liesel_bij, name2)
+                tv2 = gb.transform(tv, c2, **kw2) if via_gb else tv.transform(c2, **kw2)
             if style == "no-model":
                 return (x, tv, tv2)
         top = sink if sink is not None else x
@@ -507,7 +512,7 @@ def _after_chain(res, rec, case, spec, opt, params0, lattice, obj, sigbase):
         ox, mid, inn = (model.vars[n] for n in names)
     params = {k: float(np.float32(v)) for k, v in params0.items()}
     b1 = ref.default_bijector(fam_cls, params) if kind == "default" else ref.Bij(bname, **{k: float(np.float32(v)) for k, v in bkw.items()})
-    k2, n2, kw2 = SECONDS[case["second"]]
+    k2, n2, kw2 = SECONDS[case["second"].removeprefix("gb:")]
     b2 = ref.Bij(n2, **{k: float(np.float32(v)) for k, v in kw2.items()})
     has_sink = "sink" in case["style"]
 
